@@ -35,6 +35,11 @@ def _effects():
     return effects.generate(os.path.join(REPO, 'src/quantity/__init__.py'))
 
 
+def _hashes():
+    from . import hashes
+    return hashes.generate(os.path.join(REPO, 'src/quantity/__init__.py'))
+
+
 def _temptable():
     from . import temptable
     return temptable.generate(os.path.join(REPO, 'src/quantity/predefined.py'))
@@ -67,6 +72,7 @@ GENERATORS = [
     ('MoneyConvImpl', _mconv),
     ('ConvStackImpl', _cstack),
     ('EffectsImpl', _effects),
+    ('HashImpl', _hashes),
     ('TempTable', _temptable),
     ('IsoTable', _isotable),
     ('Catalogue', _catalogue),
